@@ -7,6 +7,8 @@
 (* any other expansions - returns out[input].  There is no action that lets  *)
 (* a call read anything but its input, so an observed history in which one   *)
 (* input produced two different outputs has no matching behaviour.           *)
+(* An invocation that is REJECTED is an invocation like any other: its      *)
+(* output is the diagnostic, and it reads and leaves nothing either.         *)
 (* TLC enumerates every interleaving of the scripts (the schedules replayed  *)
 (* by harness/libdrv with real threads taking turns) and validates recorded  *)
 (* histories (TraceExpand).                                                 *)
